@@ -115,7 +115,7 @@ pub fn run_c16(chk: &Check, tier: Tier) {
     #[cfg(feature = "polling")]
     {
         let mut reacted = [false; 128];
-        let chans: Vec<u8> = if tier.thorough() { vec![0, 5, 9, 15] } else { vec![9] };
+        let chans: Vec<u8> = if tier.thorough() { vec![0, 15] } else { vec![9] };
         for &t in &TIMEOUTS {
             for &c in &chans {
                 let mut sys = PollSys::new("C16", c, t, 1, &V3, false, PReport { transparency: true, ..Default::default() });
